@@ -186,3 +186,40 @@ func VerifC19_FourMer(L, ci int) {
 	}
 	vReach("end")
 }
+
+// the same with 128-bit words (k = 34: 68 bits), non sparse: the canonical word is compared limb by limb with a
+// reference that builds both strands as (high, low) pairs
+func vrWords128(s []byte, i, k int) (fhi, flo, rhi, rlo uint64) {
+	for j := 0; j < k; j++ {
+		fhi = fhi<<2 | flo>>62
+		flo = flo<<2 | vrCode(s[i+j])
+		rhi = rhi<<2 | rlo>>62
+		rlo = rlo<<2 | (3 - vrCode(s[i+k-1-j]))
+	}
+	return
+}
+
+func VerifC19_Canonical128(k, L int) {
+	if k%2 != 0 || k <= 32 || k > 64 || L < k {
+		vSkip()
+		return
+	}
+	s := vBytes(L, "acgt")
+	km := NewKmerMap[obifp.Uint128](nil, uint(k), false, -1)
+	kmers := km.NormalizedKmerSlice(obiseq.NewBioSequence("s", s, ""), nil)
+	n := L - k + 1
+	vAssert(len(kmers) == n, "canonical128-one-kmer-per-window")
+	if len(kmers) == n {
+		ok := true
+		for i := 0; i < n; i++ {
+			fhi, flo, rhi, rlo := vrWords128(s, i, k)
+			whi, wlo := fhi, flo
+			if rhi < fhi || (rhi == fhi && rlo < flo) {
+				whi, wlo = rhi, rlo
+			}
+			ok = ok && kmers[i].AsUint64() == wlo && kmers[i].RightShift(64).AsUint64() == whi
+		}
+		vAssert(ok, "canonical128-is-min-of-both-strands")
+	}
+	vReach("end")
+}
